@@ -29,13 +29,13 @@ class C16(common.SpecCheck):
     def unit_args(self, spec, meta, inputs):
         a = super().unit_args(spec, meta, inputs)
         a["canvas"] = True
-        if meta.get("base") == "A":
+        if common.is_affine(meta):
             a["counterfactuals"] = common.AFFINE_CF
         return a
 
     def attribute(self, spec, meta, inputs, results, v):
         # spacetime over class A meets C04's known findings K1/K2 (float rationals, unclipped interval end)
-        if meta.get("base") == "A":
+        if common.is_affine(meta):
             return common.attribute_affine(results, v)
         return None
 
